@@ -173,9 +173,10 @@ impl Check for C09Shuttle {
     }
 
     fn generate(&self, g: &mut Xo, _tier: Tier, run: u64) -> Sc {
-        let n = match g.below(8) {
-            0 => 0,
-            1 => 1,
+        let n = match g.below(60) {
+            0..=6 => 0,
+            7..=13 => 1,
+            14 => *g.pick(&[33usize, 65, 70]),
             _ => g.urange(0, 8),
         };
         // fault plans: enumerated by run index so that every position occurs
@@ -210,7 +211,7 @@ impl Check for C09Shuttle {
                 steps.push(Vec::new());
             }
         }
-        let jobs = g.urange(1, n.max(1));
+        let jobs = g.urange(1, n.clamp(1, 12));
         let mut splits: Vec<u16> = (1..jobs).map(|_| g.range(1, 1023) as u16).collect();
         splits.sort_unstable();
         Sc {
